@@ -112,11 +112,11 @@ def random_params(kind, rng):
     if kind == "EDDM":
         d = rng.choice([0.5, 0.7, 0.8, 0.9, 0.9])
         return {"n_threshold": rng.choice([1, 3, 10, 30, 30]), "drift_thresh": d,
-                "warning_thresh": min(0.999, d + rng.choice([0.03, 0.05, 0.05, 0.09]))}
+                "warning_thresh": min(0.999, d + rng.choice([0.03, 0.05, 0.05, 0.09, -0.1]))}
     if kind == "STEPD":
         d = rng.choice([0.001, 0.003, 0.003, 0.01, 0.05])
         return {"window_size": rng.choice([1, 5, 10, 30, 30]), "alpha_drift": d,
-                "alpha_warning": min(0.5, d * rng.choice([2, 10, 16.7, 5]))}
+                "alpha_warning": min(0.5, d * rng.choice([2, 10, 16.7, 5, 0.3]))}
 
 
 def sabotage(trace, rng):
